@@ -216,7 +216,17 @@ theorem toggle_no_panic (e : Env) (s : XSt) (p : ClientProp)
       intro _ _; rfl
 
 /-- RegisterRelayerProposal. -/
-theorem relayer_no_panic (s : XSt) (p : RelayerProp) : (handleRelayer s p).isPanic = false := rfl
+theorem relayer_no_panic (s : XSt) (p : RelayerProp) (h : relayerValidateBasic p = .ok ()) :
+    (handleRelayer s p).isPanic = false := by
+  unfold relayerValidateBasic at h
+  unfold handleRelayer
+  split at h
+  · simp at h
+  · split at h
+    · simp at h
+    · rename_i hg
+      have : p.addr = .good := by simpa using hg
+      simp [this]
 
 /-- All four xibc proposal types at once, in every state. -/
 theorem xibc_proposal_no_panic (e : Env) (s : XSt) (p : XProp)
@@ -225,13 +235,17 @@ theorem xibc_proposal_no_panic (e : Env) (s : XSt) (p : XProp)
   | create p => exact create_no_panic e s p h
   | upgrade p => exact upgrade_no_panic e s p h
   | toggle p => exact toggle_no_panic e s p h
-  | relayer p => exact relayer_no_panic s p
+  | relayer p => exact relayer_no_panic s p h
 
 /-- Validated proposals keep the store valid. -/
 theorem xHandle_preserves_valid (e : Env) (s s' : XSt) (hs : StoreValid s) (p : XProp)
     (h : xValidateBasic p = .ok ()) (hr : xHandle e s p = .ok s') : StoreValid s' := by
   cases p with
-  | relayer p => simp [xHandle, handleRelayer] at hr; subst hr; exact hs
+  | relayer p =>
+    simp only [xHandle, handleRelayer] at hr
+    split at hr
+    · simp at hr
+    · simp at hr; subst hr; exact hs
   | create p =>
     obtain ⟨c, hc, hv⟩ := clientValidateBasic_val p h
     simp only [xHandle, handleCreate] at hr
@@ -541,15 +555,52 @@ theorem updatePair_no_panic (e : UpdEnv) (s : ASt) (hs : AValid s) (o n : String
           repeat' (split <;> try rfl)
           simp [Pair.id, hd]
 
+/-- Per string: whatever the validator's parser accepts, the handler's parser accepts (today both are
+`SetString(·, 10)`; relaxing the validator's side — e.g. to a base-0 parser — makes this lemma false). -/
+theorem limit_parse_agree_string (s : String) (h : (limitVbParse s).isSome) : (limitHParse s).isSome := by
+  simpa [limitVbParse, limitHParse] using h
+
+/-- **supply_limit_parse_agree**: for ALL contents (all four raw strings), if `ValidateBasic` accepts then each of the
+handler's four re-parses succeeds — no nil `*big.Int` can reach `abi.Pack`. -/
+theorem supply_limit_parse_agree (p : LimitProp) (h : limitValidateBasic p = .ok ()) :
+    (limitHParse p.period).isSome ∧ (limitHParse p.limit).isSome ∧ (limitHParse p.maxAmt).isSome ∧ (limitHParse p.minAmt).isSome := by
+  unfold limitValidateBasic at h
+  split at h
+  · simp at h
+  · cases hp : limitVbParse p.period with
+    | none => simp [hp] at h
+    | some tp =>
+      cases hn : limitVbParse p.minAmt with
+      | none => simp [hp, hn] at h; split at h <;> simp at h
+      | some mn =>
+        cases hx : limitVbParse p.maxAmt with
+        | none => simp [hp, hn, hx] at h; repeat' (split at h <;> try simp at h)
+        | some mx =>
+          cases hl : limitVbParse p.limit with
+          | none => simp [hp, hn, hx, hl] at h; repeat' (split at h <;> try simp at h)
+          | some l =>
+            exact ⟨limit_parse_agree_string _ (by simp [hp]), limit_parse_agree_string _ (by simp [hl]),
+                   limit_parse_agree_string _ (by simp [hx]), limit_parse_agree_string _ (by simp [hn])⟩
+
 /-- EnableTimeBasedSupplyLimitProposal: `ValidateBasic` guards the unchecked `SetString` results. -/
 theorem enableLimit_no_panic (evmOk : Bool) (p : LimitProp) (h : limitValidateBasic p = .ok ()) :
     (handleEnableLimit evmOk p).isPanic = false := by
-  unfold limitValidateBasic at h
+  obtain ⟨h1, h2, h3, h4⟩ := supply_limit_parse_agree p h
   unfold handleEnableLimit
-  cases hp : p.period <;> cases hl : p.limit <;> cases hx : p.maxAmt <;> cases hn : p.minAmt <;>
-    simp [hp, hl, hx, hn] at h ⊢
-  all_goals (repeat' (split at h <;> try simp at h))
-  all_goals (split <;> rfl)
+  have : ¬ ((limitHParse p.period).isNone ∨ (limitHParse p.limit).isNone ∨ (limitHParse p.maxAmt).isNone ∨ (limitHParse p.minAmt).isNone) := by
+    simp [Option.isNone_iff_eq_none, Option.isSome_iff_ne_none.mp h1, Option.isSome_iff_ne_none.mp h2,
+          Option.isSome_iff_ne_none.mp h3, Option.isSome_iff_ne_none.mp h4]
+  rw [if_neg this]
+  split <;> rfl
+
+/-- the transcribed `SetString(·, 10)` on the spellings that separate it from a base-0 parser. -/
+example : setString10 "60" = some 60 ∧ setString10 "+60" = some 60 ∧ setString10 "-7" = some (-7) ∧ setString10 "007" = some 7
+    ∧ setString10 "0x3c" = none ∧ setString10 "0b111100" = none ∧ setString10 "0o74" = none ∧ setString10 "1_000" = none
+    ∧ setString10 " 60" = none ∧ setString10 "60 " = none ∧ setString10 "1e3" = none ∧ setString10 "" = none
+    ∧ setString10 "+" = none ∧ setString10 "+-1" = none ∧ setString10 "６０" = none := by decide
+
+example : limitValidateBasic ⟨true, "60", "1000", "100", "10", true⟩ = .ok () := by decide
+example : (handleEnableLimit true ⟨true, "0x3c", "1000", "100", "10", true⟩).isPanic = true := by decide
 
 theorem evmOnly_no_panic (b : Bool) : (handleEvmOnly b).isPanic = false := by
   unfold handleEvmOnly; split <;> rfl
